@@ -252,8 +252,12 @@ Definition apply_fn (id : nat) (x : list cell) : aresult :=
   | 6%nat => RBools (map is_nil x)
   | 7%nat => RNilRes
   | 9%nat => RAny x          (* hands back its own argument slice (only used where that is allowed) *)
+  | 10%nat => RAny (firstn (Nat.div2 (length x)) x)   (* a shorter slice *)
+  | 11%nat => RAny (x ++ [CS s_k])                    (* a longer slice *)
   | _ => RAny (map (fun c => match c with CS _ => CNil | _ => c end) x)
   end.
+(* the functions of the menu that return as many cells as they receive (all but 10 and 11) *)
+Definition fn_keeps_length (id : nat) : bool := negb (Nat.eqb id 10 || Nat.eqb id 11).
 Definition apply_col (id : nat) (d : list cell) : out (list cell) :=
   match apply_fn id d with
   | RAny l => Ok l
@@ -270,7 +274,7 @@ Definition op_apply_col (id : nat) (f : frame) : out frame :=
 (* one row's result as the cells written at that row, one per column *)
 Definition apply_row_cells (id : nat) (nc : nat) (x : list cell) : out (list cell) :=
   match apply_fn id x with
-  | RAny l => if Nat.leb nc (length l) then Ok (firstn nc l) else Panic
+  | RAny l => if Nat.leb nc (length l) then Ok (firstn nc l) else Err
   | RSingle c => Ok (repeat c nc)
   | RNilRes => Ok (repeat CNil nc)
   | _ => Ok (repeat CNil nc)   (* typed slices are not in the row-wise menu *)
